@@ -1,15 +1,24 @@
-import Gp.Lemmas.Checksum
+import Gp.Lemmas.ChecksumDelim
 /-
   C08 — Written checksums are correct; verification accepts exactly the correct ones.
   Property theorems only (helper lemmas: Gp/Lemmas/Checksum*.lean).
 
-  Part 1: the helpers (FoldChecksum, reduceChecksum, ComputeChecksum, pseudo-header sums) agree with
+  Part 1  the helpers (FoldChecksum, reduceChecksum, ComputeChecksum, pseudo-header sums) agree with
           RFC 1071 for every input.
+  Part 2  emission: the checksum written by each serializer equals the independent reference
+          `refCk` = RFC 1071 (`rfc1071`: one's-complement sum with end-around carry, complemented)
+          over pseudo-header bytes ++ segment with the field zeroed.
+  Part 3  verification: accepts every emitted packet; for every single-bit corruption reports
+          Valid = false and Correct = reference, except the protocols' "no checksum" encodings.
+
+  The models describe the code AFTER proposed_fixes/cksum-1 (UDP verify 0 ↦ 0xffff), cksum-2
+  (64-bit accumulation), cksum-3 (Packet.VerifyChecksums attaches the network layer).
+  2^48 = 281474976710656 bounds the length of a byte slice (beyond any address space).
 -/
 namespace Gp.C08
-open Gp Gp.Cksum
+open Gp Gp.Cksum Gp.CksumEmit
 
-/-! ## FoldChecksum -/
+/-! ## Part 1a — FoldChecksum -/
 
 /-- Termination as a theorem: for every uint32 the generated loop (fuel 4) stops because its
     condition `csum > 0xffff` fails, not because the fuel ran out. -/
@@ -25,5 +34,420 @@ theorem fold_spec (c : Nat) (h : c < 2 ^ 32) :
   ⟨ocRep c, fold_closed c (by simp only [W32]; omega), ocRep_le c, ocRep_mod c, ocRep_eq_zero c⟩
 
 example : fold 0 = 65535 ∧ fold 65535 = 0 ∧ fold 0xffffffff = 0 ∧ fold 0x1fffe = 0 ∧ fold 0x10000 = 65534 := by decide
+
+/-! ## Part 1b — reduceChecksum (the 64 → 32 bit reduction inside ComputeChecksum) -/
+
+/-- the hand-written `reduce` IS the function regenerated from checksum.go on every run -/
+theorem reduce_matches_source (s : Nat) :
+    (reduce s : Int) = Gp.Gen.CksumReduce.reduceChecksum (s : Int) := by
+  unfold reduce Gp.Gen.CksumReduce.reduceChecksum
+  simp only []
+  rw [← reduceLoop_matches 4 s]
+  simp only [W32]; omega
+
+/-- fuel 4 suffices for every uint64 -/
+theorem reduce_fuel_suffices (s : Nat) (h : s < 2 ^ 64) : reduceLoop 4 s ≤ 4294967295 :=
+  reduceLoop_le s (by simp only [W64]; omega)
+
+/-- reduceChecksum on every uint64: a uint32 in the same residue class modulo 65535; the identity below
+    2^32; and at least 0x10000 whenever a reduction took place — which is what keeps
+    `verification - uint32(existing)` in the VerifyChecksum methods from underflowing. -/
+theorem reduce_spec (s : Nat) (h : s < 2 ^ 64) :
+    reduce s < 2 ^ 32 ∧ reduce s % 65535 = s % 65535 ∧ (s < 2 ^ 32 → reduce s = s) ∧ (2 ^ 32 ≤ s → 65536 ≤ reduce s) := by
+  obtain ⟨a, b, c, d, _⟩ := reduce_props s (by simp only [W64]; omega)
+  simp only [W32] at a c d
+  exact ⟨by omega, b, fun h => c (by omega), fun h => d (by omega)⟩
+
+/-! ## Part 1c — ComputeChecksum -/
+
+/-- ComputeChecksum adds the big-endian 16-bit words (odd trailing byte padded with zero) to the initial
+    value and reduces: nothing is lost, whatever the length. -/
+theorem compute_spec (data : Bytes) (c : Nat) (hc : c < 2 ^ 32) (hl : data.length ≤ 281474976710656) :
+    compute data c = reduce (c + wordsum data) ∧ (c + wordsum data < 2 ^ 32 → compute data c = c + wordsum data) := by
+  have hc' : c < W32 := by simp only [W32]; omega
+  have h := compute_eq data c hc' hl
+  refine ⟨h, fun hlt => ?_⟩
+  rw [h]
+  exact (reduce_props _ (total_lt_W64 data c hc' hl)).2.2.1 (by simp only [W32]; omega)
+
+/-- size of the word sum: at most 0xffff per word -/
+theorem wordsum_bound (data : Bytes) : wordsum data ≤ 65535 * ((data.length + 1) / 2) :=
+  Gp.Cksum.wordsum_bound data
+
+/-- ComputeChecksum + FoldChecksum = the RFC 1071 checksum (one's-complement sum with end-around carry,
+    complemented), for every byte string of every length up to 2^48 bytes. -/
+theorem compute_rfc1071 (data : Bytes) (hl : data.length ≤ 281474976710656) :
+    fold (compute data 0) = rfc1071 data := by
+  rw [fold_compute data 0 (by simp [W32]) hl, rfc1071_eq, Nat.zero_add]
+
+/-- chaining through the initial value (how the pseudo-header enters): if `c` is the word sum of an
+    even-length prefix, the result is the RFC 1071 checksum of prefix ++ data. -/
+theorem compute_rfc1071_chained (pre data : Bytes) (he : pre.length % 2 = 0) (hc : wordsum pre < 2 ^ 32)
+    (hl : data.length ≤ 281474976710656) :
+    fold (compute data (wordsum pre)) = rfc1071 (pre ++ data) := by
+  rw [fold_compute data _ (by simp only [W32]; omega) hl, rfc1071_eq, wordsum_append _ _ he]
+
+/-- The statement without any length bound.  It is NOT claimed: beyond 2^48 bytes the model's uint64
+    accumulator could wrap (such slices cannot exist in an address space); `compute_rfc1071` is the part
+    that is proved. -/
+def compute_rfc1071_full : Prop := ∀ data : Bytes, fold (compute data 0) = rfc1071 data
+
+example : fold (compute [0x45, 0x00, 0x00, 0x1e, 0xe4] 0) = rfc1071 [0x45, 0x00, 0x00, 0x1e, 0xe4] := by decide
+
+/-- The defect repaired by proposed_fixes/cksum-2: the former uint32 accumulator (`compute32`) loses a
+    carry on 131 076 bytes of 0xff (65538 words, true sum 2^32 + 0xfffe) and folds to 1, where RFC 1071
+    — and the repaired `compute` — give 0.  Proved through the closed form of the sum of a
+    `List.replicate`, not by evaluation. -/
+theorem compute32_wraps_witness :
+    fold (compute32 (List.replicate 131076 255) 0) = 1 ∧ rfc1071 (List.replicate 131076 255) = 0 ∧
+    fold (compute (List.replicate 131076 255) 0) = 0 := by
+  have hw : wordsum (List.replicate 131076 (255 : UInt8)) = 65535 * 65538 := wordsum_replicate_ff 65538
+  refine ⟨?_, ?_, ?_⟩
+  · rw [compute32_spec _ 0 (by simp [W32]), hw]; decide
+  · rw [rfc1071_eq, hw]; decide
+  · rw [fold_compute _ 0 (by simp [W32]) (by rw [List.length_replicate]; omega), hw]; decide
+
+/-- the pseudo-header sums of layers/tcpip.go (both address families) and the protocol / length words of
+    computeChecksum add up to the word sum of the RFC 793 / RFC 8200 pseudo-header byte string -/
+theorem pseudoheader_sum_spec (net : Net) (proto len : Nat) (hok : net.ok = true) (hp : proto < 256)
+    (hlen : net.lenOk len) :
+    l4c0 net proto len = wordsum (net.pseudoBytes proto len) ∧ l4c0 net proto len < 2 ^ 32 := by
+  obtain ⟨a, b, _⟩ := l4c0_spec net proto len hok hp hlen
+  exact ⟨a, by simp only [W32] at b; omega⟩
+
+example : (Net.v4 [1, 2, 3, 4] [5, 6, 7, 8]).ok = true ∧ (Net.v4 [1, 2, 3, 4] [5, 6, 7, 8]).lenOk 10 := by
+  constructor <;> decide
+
+/-! ## Part 2 and 3 — emission and verification, per protocol
+
+  `refCk pre off post seg` is the reference: `post (rfc1071 (pre ++ seg with the 16-bit field at off zeroed))`. -/
+
+/-! ### IPv4 header (ip4.go; no pseudo-header, field at offset 10, covers the header only) -/
+
+theorem emitted_checksum_ip4 (f : Ip4F) (payload : Bytes) (hl : (ip4Hdr f payload.length).length ≤ 281474976710656) :
+    get16At? (emitIp4 f payload) 10 = some (refCk [] 10 postId (ip4Hdr f payload.length)) := by
+  have hlen : 10 + 2 ≤ (ip4Hdr f payload.length).length := by rw [ip4Hdr_length]; omega
+  unfold emitIp4
+  rw [get16At_append _ _ _ (by rw [emitAt_length postId hlen]; exact hlen)]
+  exact emitAt_field postId postId_ok (plainCtx 10 _ (by decide) hlen hl)
+
+theorem verify_accepts_emitted_ip4 (f : Ip4F) (n : Nat) (hl : (ip4Hdr f n).length ≤ 281474976710656) :
+    verifyAt 0 10 postId neverNoCk (emitAt 0 10 postId (ip4Hdr f n)) =
+      .ok { valid := true, correct := refCk [] 10 postId (ip4Hdr f n), actual := refCk [] 10 postId (ip4Hdr f n) } := by
+  have hlen : 10 + 2 ≤ (ip4Hdr f n).length := by rw [ip4Hdr_length]; omega
+  exact verifyAt_emitAt postId neverNoCk postId_ok (plainCtx 10 _ (by decide) hlen hl)
+
+theorem verify_detects_bitflip_ip4 (f : Ip4F) (n : Nat) (hl : (ip4Hdr f n).length ≤ 281474976710656)
+    (i : Nat) (hi : i < 8 * (ip4Hdr f n).length) :
+    ∃ r, verifyAt 0 10 postId neverNoCk (flipBit (emitAt 0 10 postId (ip4Hdr f n)) i) = .ok r ∧ r.valid = false ∧
+      r.correct = refCk [] 10 postId (flipBit (emitAt 0 10 postId (ip4Hdr f n)) i) ∧ r.correct ≠ r.actual := by
+  have hlen : 10 + 2 ≤ (ip4Hdr f n).length := by rw [ip4Hdr_length]; omega
+  obtain ⟨e', _, hv, hne⟩ := verifyAt_flip postId neverNoCk postId_ok (plainCtx 10 _ (by decide) hlen hl) i hi
+  exact ⟨_, hv, rfl, rfl, hne⟩
+
+example : ∃ f : Ip4F, (ip4Hdr f 2).length ≤ 281474976710656 ∧ 0 < 8 * (ip4Hdr f 2).length :=
+  ⟨{ tos := 0, id := 0, ff := 0, ttl := 64, proto := 17, src := [1, 2, 3, 4], dst := [5, 6, 7, 8], opts := [] }, by decide, by decide⟩
+
+/-! ### TCP (tcp.go; pseudo-header protocol 6, field at offset 16) -/
+
+theorem emitted_checksum_tcp (net : Net) (f : TcpF) (payload : Bytes) (hok : net.ok = true)
+    (hlen : net.lenOk (tcpHdr f ++ payload).length) :
+    get16At? (emitTcp net f payload) 16 =
+      some (refCk (net.pseudoBytes 6 (tcpHdr f ++ payload).length) 16 postId (tcpHdr f ++ payload)) := by
+  have h18 : 16 + 2 ≤ (tcpHdr f ++ payload).length := by rw [List.length_append, tcpHdr_length]; omega
+  exact emitAt_field postId postId_ok (l4ctx net 6 16 _ hok (by decide) hlen (by decide) h18)
+
+theorem verify_accepts_emitted_tcp (net : Net) (f : TcpF) (payload : Bytes) (hok : net.ok = true)
+    (hlen : net.lenOk (tcpHdr f ++ payload).length) :
+    verifyTcp net (emitTcp net f payload) =
+      .ok { valid := true, correct := refCk (net.pseudoBytes 6 (tcpHdr f ++ payload).length) 16 postId (tcpHdr f ++ payload),
+            actual := refCk (net.pseudoBytes 6 (tcpHdr f ++ payload).length) 16 postId (tcpHdr f ++ payload) } := by
+  have h18 : 16 + 2 ≤ (tcpHdr f ++ payload).length := by rw [List.length_append, tcpHdr_length]; omega
+  unfold verifyTcp emitTcp
+  simp only []
+  rw [emitAt_length postId h18]
+  exact verifyAt_emitAt postId neverNoCk postId_ok (l4ctx net 6 16 _ hok (by decide) hlen (by decide) h18)
+
+theorem verify_detects_bitflip_tcp (net : Net) (f : TcpF) (payload : Bytes) (hok : net.ok = true)
+    (hlen : net.lenOk (tcpHdr f ++ payload).length) (i : Nat) (hi : i < 8 * (tcpHdr f ++ payload).length) :
+    ∃ r, verifyTcp net (flipBit (emitTcp net f payload) i) = .ok r ∧ r.valid = false ∧
+      r.correct = refCk (net.pseudoBytes 6 (tcpHdr f ++ payload).length) 16 postId (flipBit (emitTcp net f payload) i) ∧
+      r.correct ≠ r.actual := by
+  have h18 : 16 + 2 ≤ (tcpHdr f ++ payload).length := by rw [List.length_append, tcpHdr_length]; omega
+  obtain ⟨e', _, hv, hne⟩ := verifyAt_flip postId neverNoCk postId_ok (l4ctx net 6 16 _ hok (by decide) hlen (by decide) h18) i hi
+  have hv' : verifyTcp net (flipBit (emitTcp net f payload) i) =
+      verifyAt (l4c0 net 6 (tcpHdr f ++ payload).length) 16 postId neverNoCk
+        (flipBit (emitAt (l4c0 net 6 (tcpHdr f ++ payload).length) 16 postId (tcpHdr f ++ payload)) i) := by
+    unfold verifyTcp emitTcp
+    simp only []
+    rw [length_flipBit, emitAt_length postId h18]
+  rw [hv] at hv'
+  exact ⟨_, hv', rfl, rfl, hne⟩
+
+example : ∃ (net : Net) (f : TcpF) (p : Bytes), net.ok = true ∧ net.lenOk (tcpHdr f ++ p).length ∧ 0 < 8 * (tcpHdr f ++ p).length :=
+  ⟨.v6 (List.replicate 16 1) (List.replicate 16 2),
+   { sport := 80, dport := 1234, seq := 1, ack := 2, flags := 18, window := 65535, urgent := 0, opts := [1, 1, 1, 0] }, [1, 2, 3],
+   by decide, by decide, by decide⟩
+
+/-! ### ICMPv6 (icmp6.go; pseudo-header next-header 58 over IPv6 — or IPv4 if so attached —, field at offset 2) -/
+
+theorem emitted_checksum_icmp6 (net : Net) (type code : Nat) (payload : Bytes) (hok : net.ok = true)
+    (hlen : net.lenOk ([u8 type, u8 code, 0, 0] ++ payload).length) :
+    get16At? (emitIcmp6 net type code payload) 2 =
+      some (refCk (net.pseudoBytes 58 ([u8 type, u8 code, 0, 0] ++ payload).length) 2 postId ([u8 type, u8 code, 0, 0] ++ payload)) := by
+  have h4 : 2 + 2 ≤ ([u8 type, u8 code, 0, 0] ++ payload).length := by simp
+  exact emitAt_field postId postId_ok (l4ctx net 58 2 _ hok (by decide) hlen (by decide) h4)
+
+theorem verify_accepts_emitted_icmp6 (net : Net) (type code : Nat) (payload : Bytes) (hok : net.ok = true)
+    (hlen : net.lenOk ([u8 type, u8 code, 0, 0] ++ payload).length) :
+    verifyIcmp6 net (emitIcmp6 net type code payload) =
+      some (.ok { valid := true,
+                  correct := refCk (net.pseudoBytes 58 ([u8 type, u8 code, 0, 0] ++ payload).length) 2 postId ([u8 type, u8 code, 0, 0] ++ payload),
+                  actual := refCk (net.pseudoBytes 58 ([u8 type, u8 code, 0, 0] ++ payload).length) 2 postId ([u8 type, u8 code, 0, 0] ++ payload) }) := by
+  have h4 : 2 + 2 ≤ ([u8 type, u8 code, 0, 0] ++ payload).length := by simp
+  unfold verifyIcmp6 emitIcmp6
+  simp only []
+  rw [emitAt_length postId h4, if_neg (by omega)]
+  congr 1
+  exact verifyAt_emitAt postId neverNoCk postId_ok (l4ctx net 58 2 _ hok (by decide) hlen (by decide) h4)
+
+theorem verify_detects_bitflip_icmp6 (net : Net) (type code : Nat) (payload : Bytes) (hok : net.ok = true)
+    (hlen : net.lenOk ([u8 type, u8 code, 0, 0] ++ payload).length) (i : Nat)
+    (hi : i < 8 * ([u8 type, u8 code, 0, 0] ++ payload).length) :
+    ∃ r, verifyIcmp6 net (flipBit (emitIcmp6 net type code payload) i) = some (.ok r) ∧ r.valid = false ∧
+      r.correct = refCk (net.pseudoBytes 58 ([u8 type, u8 code, 0, 0] ++ payload).length) 2 postId (flipBit (emitIcmp6 net type code payload) i) ∧
+      r.correct ≠ r.actual := by
+  have h4 : 2 + 2 ≤ ([u8 type, u8 code, 0, 0] ++ payload).length := by simp
+  obtain ⟨e', _, hv, hne⟩ := verifyAt_flip postId neverNoCk postId_ok (l4ctx net 58 2 _ hok (by decide) hlen (by decide) h4) i hi
+  have hv' : verifyIcmp6 net (flipBit (emitIcmp6 net type code payload) i) =
+      some (verifyAt (l4c0 net 58 ([u8 type, u8 code, 0, 0] ++ payload).length) 2 postId neverNoCk
+        (flipBit (emitAt (l4c0 net 58 ([u8 type, u8 code, 0, 0] ++ payload).length) 2 postId ([u8 type, u8 code, 0, 0] ++ payload)) i)) := by
+    unfold verifyIcmp6 emitIcmp6
+    simp only []
+    rw [length_flipBit, emitAt_length postId h4, if_neg (by omega)]
+  rw [hv] at hv'
+  exact ⟨_, hv', rfl, rfl, hne⟩
+
+/-! ### ICMPv4 (icmp4.go; no pseudo-header, field at offset 2, covers header and payload) -/
+
+theorem emitted_checksum_icmp4 (type code id seq : Nat) (payload : Bytes) (hl : payload.length ≤ 281474976710000) :
+    get16At? (emitIcmp4 type code id seq payload) 2 =
+      some (refCk [] 2 postId ([u8 type, u8 code, 0, 0] ++ putBe16 id ++ putBe16 seq ++ payload)) := by
+  exact emitAt_field postId postId_ok (plainCtx 2 _ (by decide) (by rw [icmp4Hdr_length]; omega) (by rw [icmp4Hdr_length]; omega))
+
+theorem verify_accepts_emitted_icmp4 (type code id seq : Nat) (payload : Bytes) (hl : payload.length ≤ 281474976710000) :
+    verifyIcmp4 (emitIcmp4 type code id seq payload) =
+      some (.ok { valid := true, correct := refCk [] 2 postId ([u8 type, u8 code, 0, 0] ++ putBe16 id ++ putBe16 seq ++ payload),
+                  actual := refCk [] 2 postId ([u8 type, u8 code, 0, 0] ++ putBe16 id ++ putBe16 seq ++ payload) }) := by
+  have h8 : 2 + 2 ≤ ([u8 type, u8 code, 0, 0] ++ putBe16 id ++ putBe16 seq ++ payload).length := by rw [icmp4Hdr_length]; omega
+  unfold verifyIcmp4 emitIcmp4
+  rw [emitAt_length postId h8, if_neg (by rw [icmp4Hdr_length]; omega)]
+  congr 1
+  exact verifyAt_emitAt postId neverNoCk postId_ok (plainCtx 2 _ (by decide) h8 (by rw [icmp4Hdr_length]; omega))
+
+theorem verify_detects_bitflip_icmp4 (type code id seq : Nat) (payload : Bytes) (hl : payload.length ≤ 281474976710000)
+    (i : Nat) (hi : i < 8 * ([u8 type, u8 code, 0, 0] ++ putBe16 id ++ putBe16 seq ++ payload).length) :
+    ∃ r, verifyIcmp4 (flipBit (emitIcmp4 type code id seq payload) i) = some (.ok r) ∧ r.valid = false ∧
+      r.correct = refCk [] 2 postId (flipBit (emitIcmp4 type code id seq payload) i) ∧ r.correct ≠ r.actual := by
+  have h8 : 2 + 2 ≤ ([u8 type, u8 code, 0, 0] ++ putBe16 id ++ putBe16 seq ++ payload).length := by rw [icmp4Hdr_length]; omega
+  obtain ⟨e', _, hv, hne⟩ := verifyAt_flip postId neverNoCk postId_ok (plainCtx 2 _ (by decide) h8 (by rw [icmp4Hdr_length]; omega)) i hi
+  have hv' : verifyIcmp4 (flipBit (emitIcmp4 type code id seq payload) i) =
+      some (verifyAt 0 2 postId neverNoCk (flipBit (emitAt 0 2 postId ([u8 type, u8 code, 0, 0] ++ putBe16 id ++ putBe16 seq ++ payload)) i)) := by
+    unfold verifyIcmp4 emitIcmp4
+    rw [length_flipBit, emitAt_length postId h8, if_neg (by rw [icmp4Hdr_length]; omega)]
+  rw [hv] at hv'
+  exact ⟨_, hv', rfl, rfl, hne⟩
+
+/-! ### UDP (udp.go; pseudo-header protocol 17, field at offset 6; RFC 768: a computed zero is sent as 0xffff,
+       a stored zero means "no checksum") -/
+
+/-- the written value is the reference with zero mapped to 0xffff (`postUdp`) … -/
+theorem emitted_checksum_udp (net : Net) (sport dport : Nat) (payload : Bytes) (hok : net.ok = true)
+    (hlen : net.lenOk (udpHdr net sport dport payload.length ++ payload).length) :
+    get16At? (emitUdp net sport dport payload) 6 =
+      some (refCk (net.pseudoBytes 17 (udpHdr net sport dport payload.length ++ payload).length) 6 postUdp
+        (udpHdr net sport dport payload.length ++ payload)) := by
+  have h8 : 6 + 2 ≤ (udpHdr net sport dport payload.length ++ payload).length := by rw [List.length_append, udpHdr_length]; omega
+  exact emitAt_field postUdp postUdp_ok (l4ctx net 17 6 _ hok (by decide) hlen (by decide) h8)
+
+/-- … so an emitted UDP checksum is never the "no checksum" encoding, and is 0xffff exactly when the RFC 1071
+    value is 0 or 0xffff. -/
+theorem emitted_udp_zero_rule (pre seg : Bytes) :
+    refCk pre 6 postUdp seg ≠ 0 ∧
+    (refCk pre 6 postUdp seg = 65535 ↔ (rfc1071 (pre ++ put16At seg 6 0) = 0 ∨ rfc1071 (pre ++ put16At seg 6 0) = 65535)) := by
+  unfold refCk postUdp
+  constructor
+  · split <;> omega
+  · split <;> omega
+
+/-- the decoder hands the whole emitted datagram to VerifyChecksum (the FixLengths length word is consistent) -/
+theorem udp_delimits_emitted (net : Net) (sport dport : Nat) (payload : Bytes)
+    (hlen : net.lenOk (udpHdr net sport dport payload.length ++ payload).length) :
+    udpDelim (emitUdp net sport dport payload) = some (emitUdp net sport dport payload) := by
+  obtain ⟨e0, e1, hs⟩ := emitUdp_shape net sport dport payload
+  rw [hs]
+  rw [List.length_append, udpHdr_length] at hlen
+  apply udpDelim_shape _ _ _ _ _ _ _ _ _ (udpLen net payload.length) rfl rfl
+  · cases net <;> simp only [udpLen] <;> (try split) <;> omega
+  · cases net with
+    | v4 s d => simp only [Net.lenOk] at hlen; simp only [udpLen]; left; omega
+    | v6 s d => simp only [udpLen]; split
+                · right; rfl
+                · left; omega
+
+theorem verify_accepts_emitted_udp (net : Net) (sport dport : Nat) (payload : Bytes) (hok : net.ok = true)
+    (hlen : net.lenOk (udpHdr net sport dport payload.length ++ payload).length) :
+    verifyUdp net (emitUdp net sport dport payload) =
+      some (.ok { valid := true,
+                  correct := refCk (net.pseudoBytes 17 (udpHdr net sport dport payload.length ++ payload).length) 6 postUdp
+                    (udpHdr net sport dport payload.length ++ payload),
+                  actual := refCk (net.pseudoBytes 17 (udpHdr net sport dport payload.length ++ payload).length) 6 postUdp
+                    (udpHdr net sport dport payload.length ++ payload) }) := by
+  have h8 : 6 + 2 ≤ (udpHdr net sport dport payload.length ++ payload).length := by rw [List.length_append, udpHdr_length]; omega
+  unfold verifyUdp
+  rw [udp_delimits_emitted net sport dport payload hlen]
+  simp only [Option.map_some]
+  congr 1
+  unfold emitUdp
+  simp only []
+  rw [emitAt_length postUdp h8]
+  exact verifyAt_emitAt postUdp udpNoCk postUdp_ok (l4ctx net 17 6 _ hok (by decide) hlen (by decide) h8)
+
+/-- Any single flipped bit outside the UDP length field (bytes 4, 5 — they decide WHICH bytes are covered):
+    Correct is the reference of the corrupted datagram, and Valid is false unless the stored checksum has
+    become 0, the "no checksum" encoding. -/
+theorem verify_detects_bitflip_udp (net : Net) (sport dport : Nat) (payload : Bytes) (hok : net.ok = true)
+    (hlen : net.lenOk (udpHdr net sport dport payload.length ++ payload).length) (i : Nat)
+    (hi : i < 8 * (udpHdr net sport dport payload.length ++ payload).length) (h4 : i / 8 ≠ 4) (h5 : i / 8 ≠ 5) :
+    ∃ r, verifyUdp net (flipBit (emitUdp net sport dport payload) i) = some (.ok r) ∧
+      r.valid = (r.actual == 0) ∧
+      r.correct = refCk (net.pseudoBytes 17 (udpHdr net sport dport payload.length ++ payload).length) 6 postUdp
+        (flipBit (emitUdp net sport dport payload) i) ∧
+      r.correct ≠ r.actual := by
+  have h8 : 6 + 2 ≤ (udpHdr net sport dport payload.length ++ payload).length := by rw [List.length_append, udpHdr_length]; omega
+  have hd : udpDelim (flipBit (emitUdp net sport dport payload) i) = some (flipBit (emitUdp net sport dport payload) i) := by
+    obtain ⟨e0, e1, hs⟩ := emitUdp_shape net sport dport payload
+    rw [hs]
+    obtain ⟨a', b', c', d', e0', e1', p', hf, hpl⟩ := flipBit_udp_shape _ _ _ _ _ _ e0 e1 payload i h4 h5
+    rw [hf]
+    have hlen' := hlen
+    rw [List.length_append, udpHdr_length] at hlen'
+    apply udpDelim_shape _ _ _ _ _ _ _ _ _ (udpLen net payload.length) rfl rfl
+    · cases net <;> simp only [udpLen] <;> (try split) <;> omega
+    · rw [hpl]
+      cases net with
+      | v4 s d => simp only [Net.lenOk] at hlen'; simp only [udpLen]; left; omega
+      | v6 s d => simp only [udpLen]; split
+                  · right; rfl
+                  · left; omega
+  obtain ⟨e', _, hv, hne⟩ := verifyAt_flip postUdp udpNoCk postUdp_ok (l4ctx net 17 6 _ hok (by decide) hlen (by decide) h8) i hi
+  have hv' : verifyUdp net (flipBit (emitUdp net sport dport payload) i) =
+      some (verifyAt (l4c0 net 17 (udpHdr net sport dport payload.length ++ payload).length) 6 postUdp udpNoCk
+        (flipBit (emitAt (l4c0 net 17 (udpHdr net sport dport payload.length ++ payload).length) 6 postUdp
+          (udpHdr net sport dport payload.length ++ payload)) i)) := by
+    unfold verifyUdp
+    rw [hd]
+    simp only [Option.map_some]
+    unfold emitUdp
+    simp only []
+    rw [length_flipBit, emitAt_length postUdp h8]
+  rw [hv] at hv'
+  exact ⟨_, hv', rfl, rfl, hne⟩
+
+example : ∃ (net : Net) (p : Bytes), net.ok = true ∧ net.lenOk (udpHdr net 1000 2000 p.length ++ p).length ∧
+    refCk (net.pseudoBytes 17 (udpHdr net 1000 2000 p.length ++ p).length) 6 postUdp (udpHdr net 1000 2000 p.length ++ p) = 65535 ∧
+    rfc1071 (net.pseudoBytes 17 (udpHdr net 1000 2000 p.length ++ p).length ++ put16At (udpHdr net 1000 2000 p.length ++ p) 6 0) = 0 :=
+  ⟨.v4 [1, 2, 3, 4] [5, 6, 7, 8], [0xe4, 0x0e], by decide, by decide, by decide, by decide⟩
+
+/-! ### GRE (gre.go; no pseudo-header, field at offset 4, present only with the C flag; without it "no checksum")
+
+  The GRE theorems about `verifyGre` are stated for segments that gre.go's DecodeFromBytes accepts
+  (`greDecode … = some (c, stored)`); that the decoder accepts what the serializer wrote is property C06. -/
+
+theorem emitted_checksum_gre (f : GreF) (payload : Bytes) (hc : f.c = true) (hl : (greHdr f ++ payload).length ≤ 281474976710656) :
+    get16At? (emitGre f payload) 4 = some (refCk [] 4 postId (greHdr f ++ payload)) := by
+  have h6 : 4 + 2 ≤ (greHdr f ++ payload).length := by have := greHdr_length_ge f hc; rw [List.length_append]; omega
+  unfold emitGre
+  simp only [hc, if_true]
+  exact emitAt_field postId postId_ok (plainCtx 4 _ (by decide) h6 hl)
+
+/-- without the C flag nothing is written: the segment is header ++ payload unchanged -/
+theorem emitted_gre_absent (f : GreF) (payload : Bytes) (hc : f.c = false) : emitGre f payload = greHdr f ++ payload := by
+  unfold emitGre; simp [hc]
+
+theorem verify_accepts_emitted_gre (f : GreF) (payload : Bytes) (hc : f.c = true) (hl : (greHdr f ++ payload).length ≤ 281474976710656)
+    (st : Nat) (hd : greDecode (emitGre f payload) = some (true, st)) :
+    verifyGre (emitGre f payload) =
+      some (.ok { valid := true, correct := refCk [] 4 postId (greHdr f ++ payload), actual := refCk [] 4 postId (greHdr f ++ payload) }) := by
+  have h6 : 4 + 2 ≤ (greHdr f ++ payload).length := by have := greHdr_length_ge f hc; rw [List.length_append]; omega
+  have hs := greDecode_stored _ _ hd
+  rw [emitted_checksum_gre f payload hc hl] at hs
+  injection hs with hs
+  subst hs
+  have hg := verifyAt_emitAt postId neverNoCk postId_ok (plainCtx 4 (greHdr f ++ payload) (by decide) h6 hl)
+  have he := emitted_checksum_gre f payload hc hl
+  unfold emitGre at he hd ⊢
+  simp only [hc, if_true] at he hd ⊢
+  unfold verifyGre
+  rw [hd]
+  simp only [Option.map_some]
+  unfold verifyAt at hg
+  rw [he] at hg
+  simp only [neverNoCk] at hg
+  simpa using hg
+
+/-- Single-bit corruption of an emitted GRE segment, whenever the decoder still accepts it: if the C flag is
+    still set, Valid is false and Correct is the reference; if the flipped bit cleared the C flag the packet
+    carries no checksum and is reported valid. -/
+theorem verify_detects_bitflip_gre (f : GreF) (payload : Bytes) (hc : f.c = true) (hl : (greHdr f ++ payload).length ≤ 281474976710656)
+    (i : Nat) (hi : i < 8 * (greHdr f ++ payload).length) (c : Bool) (st : Nat)
+    (hd : greDecode (flipBit (emitGre f payload) i) = some (c, st)) :
+    ∃ r, verifyGre (flipBit (emitGre f payload) i) = some (.ok r) ∧
+      (c = true → r.valid = false ∧ r.correct = refCk [] 4 postId (flipBit (emitGre f payload) i) ∧ r.correct ≠ r.actual) ∧
+      (c = false → r.valid = true) := by
+  have h6 : 4 + 2 ≤ (greHdr f ++ payload).length := by have := greHdr_length_ge f hc; rw [List.length_append]; omega
+  refine ⟨verifyWith 0 postId (!c) st (flipBit (emitGre f payload) i), ?_, ?_, ?_⟩
+  · unfold verifyGre; rw [hd]; rfl
+  · intro hct
+    subst hct
+    have hs := greDecode_stored _ _ hd
+    obtain ⟨e', he', hv, hne⟩ := verifyAt_flip postId neverNoCk postId_ok (plainCtx 4 (greHdr f ++ payload) (by decide) h6 hl) i hi
+    unfold emitGre at hs ⊢
+    simp only [hc, if_true] at hs ⊢
+    rw [he'] at hs
+    injection hs with hs
+    subst hs
+    unfold verifyAt at hv
+    rw [he'] at hv
+    simp only [neverNoCk] at hv
+    injection hv with hv
+    simp only [Bool.not_true]
+    rw [hv]
+    exact ⟨rfl, rfl, hne⟩
+  · intro hcf
+    subst hcf
+    simp [verifyWith]
+
+example : ∃ (f : GreF) (p : Bytes) (st : Nat), f.c = true ∧ greDecode (emitGre f p) = some (true, st) ∧
+    greDecode (flipBit (emitGre f p) 0) = some (false, 0) :=
+  ⟨{ c := true, k := true, s := false, a := false, recur := 0, flags := 0, ver := 0, proto := 2048, offset := 0, key := 7, seq := 0, ack := 0 },
+   [0xaa, 0xbb, 0xcc], 57659, by decide, by decide, by decide⟩
+
+/-! ### Packet.VerifyChecksums (packet.go) on [network layer][layer with checksum] -/
+
+/-- a packet whose layers verify is reported without mismatches and without error (in particular: a decoded
+    TCP/UDP/ICMPv6 layer IS verified against its network layer) -/
+theorem packet_verify_accepts (ip : Option VerRes) (l4 : VerRes) (hip : ∀ r, ip = some r → r.valid = true) (h4 : l4.valid = true) :
+    packetVerify [ip.map .ok, some (.ok l4)] 0 = .ok [] := by
+  cases ip with
+  | none => simp [packetVerify, mismatchOf, h4]
+  | some r => simp [packetVerify, mismatchOf, h4, hip r rfl]
+
+/-- a corrupted transport layer under a valid network layer is listed with its index, Correct and Actual -/
+theorem packet_verify_reports (ip : Option VerRes) (l4 : VerRes) (hip : ∀ r, ip = some r → r.valid = true) (h4 : l4.valid = false) :
+    packetVerify [ip.map .ok, some (.ok l4)] 0 = .ok [(1, l4.correct, l4.actual)] := by
+  cases ip with
+  | none => simp [packetVerify, mismatchOf, h4]
+  | some r => simp [packetVerify, mismatchOf, h4, hip r rfl]
 
 end Gp.C08
